@@ -8,14 +8,14 @@ from . import i12_oracle as O
 
 
 def _short_smgen_timer():
-    """SMGen's search gives up when a 60 s threading.Timer fires; shorten that to 3 s (same code path)."""
+    """SMGen's search gives up when a 60 s threading.Timer fires; shorten that to 8 s (same code path)."""
     import threading
     import types
     import sweetpea._internal.sampling_strategy.scattered_map_core as SM
 
     class _T(threading.Timer):
         def __init__(self, interval, fn, *a, **k):
-            super().__init__(min(interval, 3), fn, *a, **k)
+            super().__init__(min(interval, 8), fn, *a, **k)
     SM.threading = types.SimpleNamespace(Timer=_T)
 
 
